@@ -189,7 +189,10 @@ temporary_stack_initializer::~temporary_stack_initializer() noexcept
     // but can get rid of all the memory
     FOONATHAN_MEMORY_VERIF_POINT(10, temp_stack); // initializer destruction
     if (temp_stack)
+    {
         temporary_stack_list_obj.clear(*temp_stack);
+        temp_stack = nullptr; // it is marked as free now, another thread may take it
+    }
 }
 
 temporary_stack& foonathan::memory::get_temporary_stack(std::size_t initial_size)
